@@ -38,7 +38,19 @@ func (fr *Frame) run() {
 					continue // predecessor not reachable (e.g. recover block)
 				}
 				guards = append(guards, g)
-				sts = append(sts, fr.out[p])
+				pst := fr.out[p]
+				if h := fr.breakLoopOf(p, b); h != nil && !c.dry {
+					if spec := fr.loopSpec(h); spec != nil && len(spec.BreakSets) > 0 {
+						saved := fr.st
+						fr.st = pst.clone()
+						for _, gs := range spec.BreakSets {
+							fr.applyLoopGhostSet(gs, h, p, map[ssa.Value]Term{})
+						}
+						pst = fr.st
+						fr.st = saved
+					}
+				}
+				sts = append(sts, pst)
 			}
 			if len(guards) == 0 {
 				continue
@@ -301,6 +313,24 @@ func (fr *Frame) headStates() map[*ssa.BasicBlock]*State {
 }
 
 func (fr *Frame) preserveLocalsNotIn(b *ssa.BasicBlock) {}
+
+// breakLoopOf: p -> b leaves the innermost loop containing p from its body (p is not the head).
+func (fr *Frame) breakLoopOf(p, b *ssa.BasicBlock) *ssa.BasicBlock {
+	var best *ssa.BasicBlock
+	for _, h := range fr.fn.Blocks {
+		if !fr.isLoopHead(h) || h == p || !h.Dominates(p) || !reaches(p, h) {
+			continue
+		}
+		// b outside the loop of h
+		if h.Dominates(b) && reaches(b, h) {
+			continue
+		}
+		if best == nil || best.Dominates(h) {
+			best = h
+		}
+	}
+	return best
+}
 
 // backEdge is called when control reaches a back edge p -> h.
 func (fr *Frame) backEdge(p, h *ssa.BasicBlock, cond Term) {
